@@ -15,6 +15,7 @@ import ajlib
 from ajlib import numel
 
 N_QUICK, N_THOROUGH = 70, 1000
+_REUSED = {}
 
 
 def split_weights(prog, tensors, w, dtype):
@@ -69,7 +70,8 @@ def gen_mtl_case(rng, idx):
     for k in [None, 1, t + 1]:
         tp, sp = rng.choice([(None, None), (tasks, shared)])
         call = {"entry": "mtl", "losses": losses, "features": feats, "tasks": tp, "shared": sp,
-                "agg": ajcheck.rand_agg(rng, t, 0.7), "k": k, "retain": False}
+                "agg": ajcheck.rand_agg(rng, t, 0.7), "k": k, "retain": False,
+                "param_kind": rng.choice(["list", "gen", "iter", "tuple"])}
         calls.append(ajcheck.prepare_call(prog, call))
     return {"id": idx, "kind": "mtl", "prog": prog.to_json(), "calls": calls,
             "old": ajcheck.rand_old(rng, prog, leaves)}
@@ -81,7 +83,12 @@ def twin_compare(chk, case, call, dtype, tol):
     tsA = prog.build(dtype)
     ajlib.set_old_grads(tsA, prog, case["old"], dtype)
     from torchjd import backward, mtl_backward
-    agg = ajlib.mk_agg_obj(call["agg"], dtype)
+    # Sum() / Mean() instances are REUSED across all calls of the run (matrices of varying row counts
+    # and dtypes): an aggregator is stateless, so a reused instance must behave like a fresh one
+    if call["agg"][0] in ("sum", "mean"):
+        agg = _REUSED.setdefault((call["agg"][0], str(dtype)), ajlib.mk_agg_obj(call["agg"], dtype))
+    else:
+        agg = ajlib.mk_agg_obj(call["agg"], dtype)
     # twin B: torch.autograd
     tsB = prog.build(dtype)
     ajlib.set_old_grads(tsB, prog, case["old"], dtype)
@@ -101,9 +108,10 @@ def twin_compare(chk, case, call, dtype, tol):
         else:
             t = len(call["losses"])
             w = weights_of(call["agg"], t)
+            wrap = ajlib._wrap_iterable(call.get("param_kind", "list"))
             mtl_backward([tsA[l] for l in call["losses"]], [tsA[f] for f in call["features"]], agg,
-                         tasks_params=None if call["tasks"] is None else [[tsA[q] for q in ps] for ps in call["tasks"]],
-                         shared_params=None if call["shared"] is None else [tsA[p_] for p_ in call["shared"]],
+                         tasks_params=None if call["tasks"] is None else [wrap([tsA[q] for q in ps]) for ps in call["tasks"]],
+                         shared_params=None if call["shared"] is None else wrap([tsA[p_] for p_ in call["shared"]]),
                          parallel_chunk_size=call["k"])
             # task-specific parameters: loss_i.backward(inputs=task_params_i)
             for l, ps in zip(call["losses"], call["eff_tasks"]):
